@@ -41,7 +41,6 @@ impl AnyDirectUpdate for Collector {}
 /// same constructor calls as `BmpTcpInRunner::run` / `router_connected`.
 pub struct Session {
     handler: Option<RouterHandler>,
-    pub gate: Arc<Gate>,
     pub agent: GateAgent,
     pub link: Link,
     pub collector: Arc<Collector>,
@@ -56,10 +55,11 @@ pub struct Session {
 }
 
 impl Session {
-    /// Must be called inside a tokio runtime (gates are cloned). The caller
-    /// has to keep `gate.process()` running (as the unit does) and connect
-    /// `link`.
-    pub fn new(router_addr: SocketAddr) -> Self {
+    /// Must be called inside a tokio runtime (gates are cloned). Returns the
+    /// session and the unit's root gate: the caller has to keep
+    /// `gate.process()` running and drop the gate when it reports
+    /// `Terminated` (as `BmpTcpInRunner::run` does), and connect `link`.
+    pub fn new(router_addr: SocketAddr) -> (Self, Gate) {
         let (gate, mut agent) = Gate::new(0);
         let collector = Arc::new(Collector::default());
         let mut link = agent.create_link();
@@ -117,9 +117,8 @@ impl Session {
             bmp_metrics,
         );
 
-        Session {
+        let session = Session {
             handler: Some(handler),
-            gate: Arc::new(gate),
             agent,
             link,
             collector,
@@ -131,7 +130,8 @@ impl Session {
             router_states,
             router_info,
             state_machine,
-        }
+        };
+        (session, gate)
     }
 
     /// The real `RouterHandler::read_from_router` on an arbitrary reader.
